@@ -82,6 +82,8 @@ enum HEv {
     Handed { id: u32 },
     Dropped { id: u32 },
     Resolved { id: u32, value: Vec<u8> },
+    /// The handle completed with an error: the sender dropped the message although the handle was kept.
+    Abandoned { id: u32 },
 }
 
 fn execute(sc: &Scenario, seed: u64) -> (Vec<evlog::Ev>, Vec<(u64, HEv)>) {
@@ -229,9 +231,15 @@ fn execute(sc: &Scenario, seed: u64) -> (Vec<evlog::Ev>, Vec<(u64, HEv)>) {
                     let hev2 = hev.clone();
                     // The handle lives in a task that records its resolution; dropping = aborting it.
                     let jh = tokio::spawn(async move {
-                        if let Ok(bytes) = h.await {
-                            let seq = evlog::push(Kind::Note { what: format!("resolved {}", id) });
-                            hev2.lock().unwrap().push((seq, HEv::Resolved { id, value: bytes.to_vec() }));
+                        match h.await {
+                            Ok(bytes) => {
+                                let seq = evlog::push(Kind::Note { what: format!("resolved {}", id) });
+                                hev2.lock().unwrap().push((seq, HEv::Resolved { id, value: bytes.to_vec() }));
+                            }
+                            Err(_) => {
+                                let seq = evlog::push(Kind::Note { what: format!("abandoned {}", id) });
+                                hev2.lock().unwrap().push((seq, HEv::Abandoned { id }));
+                            }
                         }
                     });
                     handles.lock().unwrap().insert(id, jh);
@@ -282,6 +290,14 @@ fn judge(sc: &Scenario, log: &[evlog::Ev], hev: &[(u64, HEv)], r: &mut Report) -
             }
             HEv::Resolved { id, value } => {
                 resolved.insert(*id, (*seq, value.clone()));
+            }
+            HEv::Abandoned { id } => {
+                r.violate(
+                    "C14",
+                    "kept-handle-completed-without-reply",
+                    format!("the handle of message {} was kept, yet it completed with an error: the sender gave the message up instead of retransmitting it until acknowledged", id),
+                    vec![sc.label.clone()],
+                );
             }
         }
     }
